@@ -268,6 +268,12 @@ class GroupbyChunks(Harness):
             for chunks in compositions(n):
                 if tier == "thorough" or len(chunks) <= 2 or chunks == [1] * n:
                     out.append(dict(n=n, contigs=contigs, chunks=chunks, api="pileup_sum", source="stranded_stream"))
+        # a streamed track read under windows (in memory or streamed) whose contigs are grouped but come in any order / name an unknown
+        # contig, also AFTER the data of the genome's last contig: one row per window, or an error
+        for contigs in ([0, 1, 2, 2], [0, 2, 2, 2], [2, 2, 0, 0], [1, 2, 0, 0], [2, 2, 2, 0], [0, 1, 2, 3], [2, 3, 3, 3], [1, 1, 1, 1]):
+            contigs = contigs + [contigs[-1]] * (n - 4)
+            for source in ("memory", "stream"):
+                out.append(dict(n=n, contigs=contigs, chunks=[n], api="track_under_windows", source=source))
         # two interval sets synchronised contig by contig (MultiStream, as forbes / jaccard do) and reduced to their contingency table:
         # an offender in EITHER set -- also at its very end -- must raise, whichever set is passed first
         for contigs in ([0, 0, 1, 2], [0, 2, 2, 2], [0, 2, 1, 1], [2, 2, 0, 0], [0, 1, 2, 3], [1, 2, 0, 0]):
@@ -328,6 +334,20 @@ class GroupbyChunks(Harness):
                     tot = tot + v_ * (int(b_) - int(a_))
                 return dict(total=tot, n_records=len(d))
             return dict(total=ctx.lst(compute(track.sum())))
+        if skel["api"] == "track_under_windows":
+            import bionumpy as bnp
+            from bionumpy.datatypes import BedGraph
+            from bionumpy.computation_graph import compute
+            C = self._C(skel)
+            g = bnp.Genome.from_dict({c: 20 for c in C})
+            bg = BedGraph(list(C), [0] * len(C), [20] * len(C), ctx.arr([x[f"w{i}"] for i in range(len(C))], "int64"))     # value w_c on all of contig c
+            track = g.get_track(NpDataclassStream(iter([bg]), dataclass=BedGraph))
+            names = [(C + ["zz"])[c] for c in skel["contigs"]]
+            pos = [3 * sum(1 for c in skel["contigs"][:i] if c == skel["contigs"][i]) for i in range(n)]
+            iv = Interval(names, pos, [p + 2 for p in pos])
+            windows = g.get_intervals(iv) if skel["source"] == "memory" else g.get_intervals(NpDataclassStream(iter([iv]), dataclass=Interval))
+            got = compute(track[windows])
+            return dict(rows=[ctx.lst(got[i].to_array()) for i in range(len(got))])
         if skel["api"] == "pileup_sum":
             import bionumpy as bnp
             from bionumpy.datatypes import StrandedInterval
@@ -440,6 +460,17 @@ class GroupbyChunks(Harness):
             t = out["table"]
             both = 2 * len(set(skel["contigs"]))         # the first entry of every contig of B coincides with A's [0, 2)
             return [[int(v) for v in row] for row in t][0][0] == both and sum(int(v) for row in t for v in row) == 20 * len(self._C(skel))
+        if skel["api"] == "track_under_windows":
+            if isinstance(out, Exc):
+                return not self._track_ok(skel)
+            if not self._track_ok(skel) or len(out["rows"]) != skel["n"]:
+                return False                      # a result although windows cannot be placed / a window without its row
+            conj = []
+            for i, c in enumerate(skel["contigs"]):
+                if len(out["rows"][i]) != 2:
+                    return False
+                conj += [TI(v) == x[f"w{c}"].t for v in out["rows"][i]]
+            return z_and(conj)
         if skel["api"] == "pileup_sum":
             if isinstance(out, Exc):
                 return not self._track_ok(skel)
@@ -488,6 +519,16 @@ class GroupbyChunks(Harness):
             t = [[int(v) for v in row] for row in cout["table"]]
             ok = t[0][0] == 2 * len(set(skel["contigs"])) and sum(map(sum, t)) == 20 * len(self._C(skel))
             return None if ok else f"{desc}: table {t}"
+        if skel["api"] == "track_under_windows":
+            names = [(self._C(skel) + ["zz"])[c] for c in skel["contigs"]]
+            desc = f"streamed track (value w_c on contig c of {self._C(skel)}, w = {[cx[f'w{i}'] for i in range(3)]}) read under {skel['source']} windows on contigs {names}"
+            if isinstance(cout, Exc):
+                return None if not self._track_ok(skel) else f"{desc}: raised {cout}"
+            got = [[int(v) for v in r] for r in cout["rows"]]
+            if not self._track_ok(skel):
+                return f"{desc}: rows {got} although the windows' contig order / names do not fit the genome (windows dropped or misplaced without an error)"
+            exp = [[cx[f"w{c}"]] * 2 for c in skel["contigs"]]
+            return None if got == exp else f"{desc}: rows {got}, expected {exp}"
         if skel["api"] == "pileup_sum":
             names = [(self._C(skel) + ["zz"])[c] for c in skel["contigs"]]
             how = ("an in-memory table streamed with as_stream()" if skel["source"] == "memory_as_stream"
